@@ -225,6 +225,16 @@ func (e *Enc) alloc(fr *Frame, x *ssa.Alloc) {
 	et := x.Type().Underlying().(*types.Pointer).Elem()
 	e.siteAlloc(fr, x, et)
 	if _, esc := e.escaped[x]; esc {
+		if at, ok := under(et).(*types.Array); ok && x.Comment == "slicelit" && sliceLitOnly(x) {
+			if _, isStruct := under(at.Elem()).(*types.Struct); !isStruct {
+				// the backing array of a slice literal []T{...} that outlives the frame: it is only
+				// ever indexed and sliced, so it is modelled as slice storage in the element heap
+				ref := e.newAllocRef("slicelit")
+				e.zeroStorage(fr.curState, ref, at.Elem())
+				e.setVal(fr, x, &PtrV{A: Addr{Kind: ARef, Base: ref, Lit: true}, Elem: et})
+				return
+			}
+		}
 		ref := e.newAllocRef(x.Comment)
 		pv := &PtrV{A: Addr{Kind: ARef, Base: ref}, Elem: et}
 		e.store(fr.curState, pv.A, et, e.zero(et))
@@ -769,4 +779,29 @@ func contiguousMask(m *big.Int) []uint {
 // andContiguous: x & (2^hi - 2^lo) = (x mod 2^hi) - (x mod 2^lo), exact for two's complement.
 func andContiguous(x T, r []uint) T {
 	return Sub(App(SInt, "mod", x, IntBig(pow2(r[1]))), App(SInt, "mod", x, IntBig(pow2(r[0]))))
+}
+
+// sliceLitOnly: the array allocation is used only as the operand of IndexAddr and Slice
+// instructions (the shape go/ssa emits for a slice literal).
+func sliceLitOnly(x *ssa.Alloc) bool {
+	refs := x.Referrers()
+	if refs == nil {
+		return false
+	}
+	for _, r := range *refs {
+		switch u := r.(type) {
+		case *ssa.IndexAddr:
+			if u.X != x {
+				return false
+			}
+		case *ssa.Slice:
+			if u.X != x {
+				return false
+			}
+		case *ssa.DebugRef:
+		default:
+			return false
+		}
+	}
+	return true
 }
